@@ -447,6 +447,6 @@ def defs_run(case, ctx):
 def stages(tier):
     return [
         {"name": "objects", "kind": "hyp", "strategy": objects_strategy, "run": objects_run,
-         "examples": {"quick": 4000, "thorough": 250000}, "shards": 16},
+         "examples": {"quick": 10000, "thorough": 250000}, "shards": 16},
         {"name": "defs", "kind": "enum", "gen": defs_gen, "run": defs_run, "shards": 16, "exhaustive": True},
     ]
